@@ -14,3 +14,12 @@ Theorem c07_mutual_exclusion : forall e, iter_env e -> forall progs, wf_progs pr
 Proof. exact iter_mutex. Qed.
 Print Assumptions c07_mutual_exclusion.
 
+
+Check iter_C07_hb : forall e, iter_env e -> forall progs, wf_progs progs -> forall sched,
+  nowrap (c_labels (exec e (init progs) sched)) ->
+  chk_C07_hb (c_labels (exec e (init progs) sched)) = true.
+Theorem c07_happens_before : forall e, iter_env e -> forall progs, wf_progs progs -> forall sched,
+  nowrap (c_labels (exec e (init progs) sched)) ->
+  chk_C07_hb (c_labels (exec e (init progs) sched)) = true.
+Proof. exact iter_C07_hb. Qed.
+Print Assumptions c07_happens_before.
